@@ -641,6 +641,44 @@ def joinind_C10(v, sc):
                    "pattern on the counter abstraction JoinInd.tla (Apalache); twins: " + "; ".join(t[3] for t in JOININD_TWINS) + " - each rejected")
 
 
+def shared_C10(v, sc):
+    """several disciplines fed from ONE input channel (fan-out; seeded change C10-e): lock-step in virtual time, judged by Mon_JoinShared.tla"""
+    sub = os.path.join(sc, "shared")
+    os.makedirs(sub, exist_ok=True)
+    stage_specs(sub)
+    binary = os.path.join(sc, "joinh.test")
+    rc, out, wall = run_test(binary, "TestRecordShared$", env=dict(OUT_DIR=sub, SHARED_RUNS=24 if v.tier == "quick" else 600), timeout=900)
+    m = re.search(r"SHARED runs=(\d+)", out)
+    if not m or rc != 0:
+        raise Inconclusive("shared-input recorder died\n" + out[-3000:])
+    logf = os.path.join(sub, "shared.ndjson")
+    recs = [json.loads(l) for l in open(logf)]
+    res = tlc(sub, "Mon_JoinShared", cfg="Mon_JoinShared.cfg", workers=1, timeout=600)
+    if res.crashed or not res.finished and not res.inv_violated or res.distinct < len(recs) + 1:
+        raise Inconclusive("Mon_JoinShared did not consume the whole log (%d records, %d states)\n%s" % (len(recs), res.distinct, res.out[-2000:]))
+    bad = []
+    if res.inv_violated:
+        sets = re.findall(r"/\\ viol = \{([^}]*)\}", res.out)
+        bad = [int(x) for x in sets[-1].split(",") if x.strip()] if sets else []
+        if not bad:
+            raise Inconclusive("Mon_JoinShared rejects the log but the offending traces cannot be read\n" + res.out[-2000:])
+    by_tr = {}
+    for r in recs:
+        by_tr.setdefault(r["tr"], []).append(r)
+    for tr in bad[:3]:
+        t = by_tr[tr]
+        c = t[0]
+        facts = {r["ev"]: (r["x"], r["now"]) for r in t if r["ev"] in ("Empty", "End")}
+        v.violation("C10: %d %s disciplines fed from one input channel (Timeout %d units, divider %d): %d elements accepted by t=%d, only %d on the "
+                    "outputs at t=%d, later than Timeout*(1+1/divider) with every consumer ready (shared-input trace %d)"
+                    % (c["n"], c["kind"], c["T"], c["Div"], facts["Empty"][0], facts["Empty"][1], facts["End"][0], facts["End"][1], tr),
+                    dict(kind="join-shared", trace=t))
+    judged = sum(1 for t in by_tr.values() if any(r["ev"] == "End" for r in t))
+    v.cov["shared_input"] = dict(traces=len(by_tr), judged=judged, rejected_by_constructor=sum(1 for t in by_tr.values() if any(r["ev"] == "Rejected" for r in t)),
+                                 stuck=sum(1 for t in by_tr.values() if any(r["ev"] == "Stuck" for r in t)), elements=sum(r["x"] for r in recs if r["ev"] == "Empty"),
+                                 monitor_states=res.distinct, violations=len(bad), wall_s=round(wall, 1))
+
+
 def check_C10(tier):
     v = Verdict("C10", tier, "model_checking")
     jobs = [("MC_Join", big(tier, "MC_Join_ready"), "v2 join, urgent regime with ready consumer"),
@@ -649,6 +687,7 @@ def check_C10(tier):
     def scheds(v, sc, rng):
         out, extra = [], {}
         joinind_C10(v, sc)
+        shared_C10(v, sc)
         for what in ("join", "unite"):
             s, info = tlc_schedules(v, sc, rng, what, n_of(tier, 400, 20000))
             for x in s:
